@@ -4,6 +4,9 @@ import json
 SC="stateless model checking of the implementation under a controlled scheduler (iterative preemption/delay bounding)"
 ENUM="bounded-exhaustive enumeration over explicit boundary alphabets, every case executed on the real code and compared with a reference model written from the property statement"
 CHECKS = {
+ "C19": dict(engine="vsched", technique=SC+" + exhaustive probe-outcome histories on the virtual clock",
+   text="round-robin under 2-4 concurrent selecting threads (all interleavings at atomic-operation granularity), random with every IntN answer, and availability / latency / min-max-latency groups built through the real AddClientGroup with their real probe loops, tickers and workers on the virtual clock: an optional head round, k filler rounds around the 32/64-slot retention, then all outcome suffixes of a stated depth, asked mid-round and after each round",
+   note="TCP groups run the real probe over an in-memory connection; UDP groups swap only the probe function; where the cycle starts is not demanded"),
  "C06": dict(engine="enum", technique=ENUM+" in crash-isolating worker subprocesses",
    text="38 network-facing entry groups (SOCKS5 address/stream/client-reply parsers, SS-none, HTTP proxy server/client/relay, SS2022 stream server and client incl. malformed headers sealed with the real keys, SS2022 and direct UDP unpackers, DNS parseMsg and Lookup) are fed every string up to length L over each parser's branch constants, every truncation, single (thorough: double) boundary mutation, insertion and deletion of valid seeds; every address a parser yields is pushed through 18 real routers (each criterion representation, incl. source port 0), Abort/Proceed+relay, six outbound request writers and UDP re-packing",
    note="the quantifier 'all byte strings' is unbounded: decided on the stated finite sub-space (not coverage-guided fuzzing); GeoIP and TLS servers not exercised"),
